@@ -221,6 +221,11 @@ func (c Case) Line(r Result) string {
 }
 
 var (
+	jidNet = jid.MustParse("example.net")
+	jidMe  = jid.MustParse("me@example.net")
+)
+
+var (
 	errFault = errors.New("harness: injected connection fault")
 	errCB    = errors.New("harness: scripted callback error")
 )
